@@ -88,6 +88,8 @@ pub struct StatsData<T: Sc> {
     pub bands: Vec<(f64, Vec<T>)>,
     /// for each requested invalid probability: did the call panic?
     pub bad_p_panicked: Vec<(f64, bool)>,
+    /// probabilities in (0,1) next to zero: (p, band or None when the call panicked)
+    pub tiny_bands: Vec<(f64, Option<Vec<T>>)>,
 }
 
 pub struct StatsOut<T: Sc> {
@@ -307,6 +309,15 @@ macro_rules! fit_stats_impl {
                     let r = catch_unwind(AssertUnwindSafe(|| st.confidence_band_radius(<$T as Sc>::of64(p))));
                     bad_p_panicked.push((p, r.is_err()));
                 }
+                let mut tiny_bands = Vec::new();
+                if !$bad.is_empty() {
+                    // (valid probabilities whose quantile (1+p)/2 rounds to one half)
+                    let tiny: [f64; 3] = [f64::from_bits(0x3C30_0000_0000_0000), f64::from_bits(0x3810_0000_0000_0000), if <$T as Sc>::NAME == "f64" { f64::from_bits(1) } else { f32::from_bits(1) as f64 }];
+                    for &p in tiny.iter() {
+                        let r = catch_unwind(AssertUnwindSafe(|| st.confidence_band_radius(<$T as Sc>::of64(p))));
+                        tiny_bands.push((p, r.ok().map(|v| v.as_slice().to_vec())));
+                    }
+                }
                 let data = StatsData {
                     cov,
                     corr,
@@ -318,6 +329,7 @@ macro_rules! fit_stats_impl {
                     nonlin_var: st.nonlinear_parameters_variance().as_slice().to_vec(),
                     bands,
                     bad_p_panicked,
+                    tiny_bands,
                 };
                 Some(StatsOut {
                     fit: fit_out(true, fr),
